@@ -49,7 +49,14 @@ Fixpoint restop (fs : list feature) (sc inb : list N) : option (list feature) :=
 Definition restop_features (fs : list feature) : option (list feature) :=
   restop fs (sc_block fs) (in_block fs).
 
-(* Features.roundtrip with the byte level of the SC / IN series in between *)
+Definition fnostopb (f : feature) : bool :=
+  match f with
+  | FSoftClip _ b | FInsertion _ b => negb (existsb (N.eqb 0) b)
+  | _ => true
+  end.
+
+(* Features.roundtrip with the byte level of the SC / IN series in between; with the switch
+   [FileNames.stop_byte_refused] the writer answers InvalidInput for a value holding the stop byte *)
 Definition roundtrip_stop (sm : smatrix) (refseq seq quals : list N) (ops : list op) (start : N)
   : outcome :=
   let rl := record_read_length seq ops in
@@ -63,6 +70,7 @@ Definition roundtrip_stop (sm : smatrix) (refseq seq quals : list N) (ops : list
       match encode_features sm ws with
       | None => RWritePanic
       | Some fs0 =>
+          if stop_byte_refused && negb (forallb fnostopb fs0) then RInvalidInput else
           match restop_features fs0 with
           | None => RReadFail
           | Some fs =>
